@@ -15,7 +15,8 @@ def set_meta(instance: Any, **meta: Any) -> Dict[str, Any]:
     """
 
     if not hasattr(instance, '__pjrpc_meta__'):
-        instance.__pjrpc_meta__ = {}
+        # a bound method (e.g. a classmethod of a view) has no attributes of its own: they live on its function
+        getattr(instance, '__func__', instance).__pjrpc_meta__ = {}
 
     instance.__pjrpc_meta__.update(meta)
 
